@@ -452,6 +452,22 @@ def run_race_scenarios(ctx, binp, scenarios, outdir, extra_args=(), jobs=6, time
         return list(ex.map(one, enumerate(scenarios)))
 
 
+def _fatal_map_pairs(out, reports):
+    """a process killed by the runtime's 'fatal error: concurrent map ...': the access pairs (race tokens of the same process) one of
+    whose two functions is on the stack of the goroutine the runtime caught.  [] if the crash is something else / cannot be attributed."""
+    m = re.search(r"fatal error: concurrent map [^\n]*\n+(goroutine \d+[^\n]*\n(?:[^\n]+\n)+)", out)
+    if not m:
+        return []
+    stack = m.group(1).replace("(*", "").replace(")", "")
+    fns = set(re.findall(r"(?:[\w.\-]+/)*([\w]+\.[\w.]+)\(", stack))      # e.g. encrypt.Filter.Process, eventlogger.Event.FormattedAs
+    hit = set()
+    for r in reports:
+        parts = r["token"].split("|")
+        if len(parts) >= 3 and any(f and f in fns for f in parts[1:3]):
+            hit.add(r["token"])
+    return sorted(hit)
+
+
 def report_races(ctx, prop, reports, mine, static_broken):
     """dynamic race reports that no static complaint stands for.  One violation per field (split where a known finding covers only
     some of the access pairs); when the static obligation is broken as well they are folded into ONE additional violation, since they
@@ -629,7 +645,7 @@ def _stress(ctx, part, info):
         if _timed_out(ctx, "C19", "stressh", rc, o, sc):
             continue
         if summ is None or rc not in (0, 66):
-            crashed.append((sc, rc, o[-3000:]))
+            crashed.append((sc, rc, o if len(o) <= 7000 else o[:3500] + "\n...\n" + o[-3500:], _fatal_map_pairs(o, parse_race_reports(log, info, scenario=sc) if info else [])))
             continue
         pairs |= set(summ["neighbour_pairs_covered"] or [])
         sent += summ["events_sent"]
@@ -644,8 +660,18 @@ def _stress(ctx, part, info):
                          "built with -race, one process per scenario; output oracles: every sink's output is a sequence of whole JSON documents, no interleaved Write on a sink's writer, "
                          "a sink fed only through an encrypt.Filter never shows a protected canary (and the plain pipeline's sink does), two FileSinks on one file hold every acknowledged event exactly once; distinct_nontrivial = distinct scenarios (composition x controls) in which events reached a sink"})
     _report_hangs(ctx, "C19", "stressh", hangs, "a composition of stock nodes under concurrent Sends and control calls did not finish within the watchdog")
-    for sc, rc, o in crashed:
-        rp = V.write_replay(ctx, "stress-crash-" + sc["name"], {"kind": "correspondence", "engine": "stressh", "case": sc, "exit_code": rc, "output": o})
+    for sc, rc, o, map_pairs in crashed:
+        rec = {"kind": "correspondence", "engine": "stressh", "case": sc, "exit_code": rc, "output": o}
+        if map_pairs:
+            # the Go runtime's own map check ("fatal error: concurrent map ...") fired in a function of an access pair the race detector
+            # reported in the same process: the crash is that data race, seen by the runtime instead of (in addition to) the detector
+            rec.update({"theorem_or_correspondence": "race detector vs the generated access table", "access_pairs": map_pairs,
+                        "note": "fatal error of the Go runtime (unsynchronised map access) in a function of these access pairs, which the race detector reported in the same run"})
+            rp = V.write_replay(ctx, "stress-fatal-map-" + sc["name"], rec)
+            ctx.violations.append({"match": "fatal:concurrent-map " + " ".join(map_pairs), "replay": rp,
+                                   "what": "the Go runtime aborted scenario %s (concurrent map access): %s" % (sc["name"], "; ".join("%s vs %s" % tuple(p.split("|")[1:3]) for p in map_pairs[:3]))})
+            continue
+        rp = V.write_replay(ctx, "stress-crash-" + sc["name"], rec)
         ctx.violations.append({"match": "crash:" + sc["name"], "replay": rp, "what": "stress scenario %s crashed (exit %s)" % (sc["name"], rc)})
     seen_classes = set()
     ctx._integrity = integrity
